@@ -123,7 +123,7 @@ macro_rules! bigint_convert {
                     -((a as $type - value) as f64)
                 };
 
-                Self { hi: a, lo: b }
+                crate::arithmetic::fast_two_sum(a, b)
             }
         }
 
